@@ -124,6 +124,41 @@ def _plain(v):
     return v
 
 
+def build_snoop(cfg):
+    env = build_somersault(cfg)
+    import odxtools.cli.snoop  # noqa  (imported before the shims are installed)
+    return env
+
+
+def run_snoop(sx, cfg, env):
+    """the snoop tool's telegram handler: a (concrete) tester request followed by an ARBITRARY
+    ECU telegram, and an arbitrary tester telegram - it catches DecodeError only, so nothing may
+    escape"""
+    import contextlib
+    import io
+    import odxtools.cli.snoop as snoop
+    snoop.odx_diag_layer = env["layer"]
+    snoop.ecu_rx_id, snoop.ecu_tx_id = 0x7B0, 0x7B8
+    snoop.last_request = None
+    msg = sx.bytes("msg", cfg["mlen"])
+    if cfg.get("first") is not None:
+        sx.assume(msg[0] == cfg["first"])
+    try:
+        with contextlib.redirect_stdout(io.StringIO()):
+            if cfg["who"] == "ecu":
+                snoop.handle_telegram(0x7B0, bytes.fromhex(cfg["request"]))
+                snoop.handle_telegram(0x7B8, msg)
+            else:
+                snoop.handle_telegram(0x7B0, msg)
+    except Exception as e:  # noqa: BLE001
+        sx.observe("outcome", "escaped:" + type(e).__name__)
+        sx.fail("snoop-handler-never-raises")
+        return
+    sx.cover("handled")
+    sx.require(True, "snoop-handler-never-raises")
+    sx.observe("outcome", "handled")
+
+
 def build_somersault(cfg):
     import odxtools
     import odxtools.isotp_state_machine  # noqa
@@ -175,6 +210,9 @@ HARNESSES = {
                 "must_cover": ["returned", "decode-error"],
                 "limits": {"quick": explore.Limits(max_paths=20000, wall_s=300),
                            "thorough": explore.Limits(max_paths=100000, wall_s=1200)}},
+    "snoop": {"build": build_snoop, "run": run_snoop, "width": 80, "must_cover": ["handled"],
+              "limits": {"quick": explore.Limits(max_paths=20000, wall_s=600),
+                         "thorough": explore.Limits(max_paths=200000, wall_s=3000)}},
     "somersault": {"build": build_somersault, "run": run_somersault, "width": 80,
                    "must_cover": ["returned", "decode-error"],
                    "limits": {"quick": explore.Limits(max_paths=20000, wall_s=600),
@@ -210,6 +248,23 @@ def configs(tier, seed):
             c.update(harness="atomdec", id=f"atomdec/{cc.atom_id(b)}/len{n}", build=b, mlen=n,
                      minlen=ml, tail=b.get("tail", True))
             out.append(c)
+    for n in ((1, 2, 3) if tier == "quick" else (0, 1, 2, 3)):
+        for req in ("ba00", "3e00", "1001"):
+            base = {"harness": "snoop", "layer": "somersault_lazy", "who": "ecu", "request": req,
+                    "mlen": n, "build": {"layer": "somersault_lazy"}}
+            if n >= 2:
+                for fb in (range(256) if n == 2 or tier != "quick" else
+                           (0x7F, 0xFA, 0x62, 0x50, 0x7E, 0x00)):
+                    out.append(dict(base, id=f"snoop/ecu/{req}/len{n}/b{fb:02x}", first=fb))
+            else:
+                out.append(dict(base, id=f"snoop/ecu/{req}/len{n}"))
+        tb = {"harness": "snoop", "layer": "somersault_lazy", "who": "tester", "mlen": n,
+              "build": {"layer": "somersault_lazy"}}
+        if n == 2:
+            for fb in range(256):
+                out.append(dict(tb, id=f"snoop/tester/len{n}/b{fb:02x}", first=fb))
+        elif n < 2:
+            out.append(dict(tb, id=f"snoop/tester/len{n}"))
     maxlen = 3 if tier == "quick" else 4
     for layer in ("somersault_lazy", "somersault_assiduous"):
         for n in range(0, maxlen + 1):
